@@ -236,7 +236,8 @@ def check(case):
         if len(comps_after) != len(comps_before):
             fail("components-not-preserved", "%s -> %s" % (comps_before, comps_after))
         # the same graph as GFA2 (every segment has a length): merging there gives a valid GFA2 graph which, read as GFA1, is the merged GFA1 graph
-        if all(sq != "*" or any(t.startswith("LN:") for t in f[3:]) for f in fs if f[0] == "S" for sq in [f[2]]) and not any(f[0] == "P" for f in fs):
+        if all(sq != "*" or any(t.startswith("LN:") for t in f[3:]) for f in fs if f[0] == "S" for sq in [f[2]]) and not any(f[0] == "P" for f in fs) \
+                and not any(f[0] == "L" and f[5] == "6M" for f in fs):      # (an overlap covering a whole segment is a containment in GFA2: another graph)
             try:
                 g2 = gfapy.Gfa(lines, vlevel=1).to_gfa2()
             except gfapy.Error:
@@ -287,7 +288,7 @@ def cases(tier, seed):
         for _ in range(m):
             a, b = rng.choice(segs), rng.choice(segs)
             oa, ob = rng.choice("+-"), rng.choice("+-")
-            cg = rng.choice(["*", "2M", "3M", "1M", "2="]) if with_seq else rng.choice(["*", "2M"])
+            cg = rng.choice(["*", "2M", "3M", "1M", "2=", "6M"]) if with_seq else rng.choice(["*", "2M"])      # 6M: the overlap covers a whole segment (it adds nothing to the spelled sequence)
             key = tuple(oracle.link_canon([a, oa, b, ob, "*"])[:4])
             if key in seen:
                 continue
